@@ -413,13 +413,20 @@ Proof.
   - destruct Fkind as (Fver & _). rewrite Fver. reflexivity.
 Qed.
 
-Lemma hint_agrees d : info_next_free_cluster d = spec_hint (get32 d 492).
+Lemma hint_agrees d n :
+  match info_next_free_cluster d with Some c => if c <? n + 2 then Some c else None | None => None end
+  = spec_hint n (get32 d 492).
 Proof.
-  unfold info_next_free_cluster, spec_hint, U32_MAX.
+  unfold info_next_free_cluster, spec_hint, U32_MAX. cbv zeta.
   destruct (N.eqb_spec (get32 d 492) 4294967295) as [E|E]; [reflexivity|].
   cbn [orb].
-  destruct (N.eqb_spec (get32 d 492) 0) as [E0|E0]; destruct (N.eqb_spec (get32 d 492) 1) as [E1|E1];
-    destruct (N.ltb_spec (get32 d 492) 2) as [L|L]; try reflexivity; lia.
+  destruct (N.eqb_spec (get32 d 492) 0) as [E0|E0].
+  { destruct (N.ltb_spec (get32 d 492) 2) as [L|L]; [reflexivity|lia]. }
+  destruct (N.eqb_spec (get32 d 492) 1) as [E1|E1].
+  { destruct (N.ltb_spec (get32 d 492) 2) as [L|L]; [reflexivity|lia]. }
+  destruct (N.ltb_spec (get32 d 492) 2) as [L|L]; [lia|]. cbn [orb].
+  destruct (N.ltb_spec (get32 d 492) (n + 2)) as [A|A]; destruct (N.leb_spec (n + 2) (get32 d 492)) as [B|B];
+    cbn [orb]; try reflexivity; try lia.
 Qed.
 
 Lemma free_agrees d : info_free_clusters_count d = spec_free (get32 d 488).
@@ -638,7 +645,9 @@ Theorem info_sentinels g ib :
        (get32 ib 488 = 4294967295 -> free_clusters_count v = None) /\
        (get32 ib 488 <> 4294967295 -> free_clusters_count v = Some (get32 ib 488)) /\
        (get32 ib 492 = 4294967295 \/ get32 ib 492 = 0 \/ get32 ib 492 = 1 -> next_free_cluster v = None) /\
-       (get32 ib 492 <> 4294967295 -> 2 <= get32 ib 492 -> next_free_cluster v = Some (get32 ib 492))).
+       (get32 ib 492 <> 4294967295 -> 2 <= get32 ib 492 -> get32 ib 492 < n_clusters g + 2 ->
+          next_free_cluster v = Some (get32 ib 492)) /\
+       (n_clusters g + 2 <= get32 ib 492 -> next_free_cluster v = None)).
 Proof.
   intros Hv Hlim E32 r. subst r.
   rewrite mount_format_with by assumption.
@@ -653,12 +662,16 @@ Proof.
     eexists. split; [reflexivity|]. split; [reflexivity|].
     unfold layout_with. cbn [free_clusters_count next_free_cluster]. rewrite E32.
     unfold spec_free, spec_hint.
-    split; [|split; [|split]].
+    split; [|split; [|split; [|split]]].
     + intros ->. reflexivity.
     + intros H. destruct (N.eqb_spec (get32 ib 488) 4294967295); [contradiction|reflexivity].
     + intros [-> |[-> | ->]]; reflexivity.
-    + intros Ha Hb. destruct (N.eqb_spec (get32 ib 492) 4294967295); [contradiction|].
-      destruct (N.ltb_spec (get32 ib 492) 2); [lia|reflexivity].
+    + intros Ha Hb Hc. destruct (N.eqb_spec (get32 ib 492) 4294967295); [contradiction|].
+      destruct (N.ltb_spec (get32 ib 492) 2); [lia|].
+      destruct (N.leb_spec (n_clusters g + 2) (get32 ib 492)); [lia|reflexivity].
+    + intros Hc. destruct (N.eqb_spec (get32 ib 492) 4294967295); [reflexivity|].
+      destruct (N.ltb_spec (get32 ib 492) 2); [reflexivity|].
+      destruct (N.leb_spec (n_clusters g + 2) (get32 ib 492)); [reflexivity|lia].
 Qed.
 
 Lemma partition_start_lt4 idx : idx < 4 -> partition_start idx = Some (446 + 16 * idx).
@@ -808,7 +821,7 @@ Theorem mount_format_fields g :
     (65525 <= cluster_count v ->
        fat_specific_info v = Fat32Info (g_root_cluster g) (g_lba g + g_fs_info g) /\
        free_clusters_count v = spec_free (g_info_free g) /\
-       next_free_cluster v = spec_hint (g_info_next g)).
+       next_free_cluster v = spec_hint (n_clusters g) (g_info_next g)).
 Proof.
   intros Hv Hlim. exists (layout g). split; [apply mount_format; assumption|].
   unfold layout, layout_with.
